@@ -109,6 +109,30 @@ def tower(kind, n):
     raise ValueError(kind)
 
 
+# (d) lexical boundaries: every literal rule of the grammar at the limits of its value space, in every position that treats a
+# literal specially (folding, index / shift / loop-bound checks, typed initialisers)
+def lexical_literals():
+    P = [2 ** 7, 2 ** 8, 2 ** 31 - 1, 2 ** 31, 2 ** 32, 2 ** 63 - 1, 2 ** 63, 2 ** 64, 2 ** 127 - 1, 2 ** 127, 2 ** 128, 10 ** 40]
+    out = ["0", "00", "1_0", "1_", "1__0", "_1"]
+    out += [str(v) for v in P] + ["B" + str(v) for v in P] + [hex(v) for v in P] + ["B" + hex(v) for v in P]
+    out += ["0x", "0x_1", "0xg", "0X1", "B", "B_1", "B0x", "0x" + "f" * 33, "B0x" + "F" * 40, "9" * 400, "B" + "9" * 400]
+    out += ["0b0", "0b" + "1" * 8, "0b" + "1" * 9, "0b1" + "0" * 8, "0b" + "1" * 64, "0b" + "1" * 200, "0b", "0b2", "0b_1", "0b1_", "0B1"]
+    out += ["1.5", "1.", ".5", "1.5.5", "1e5", "1f", "1F", "1.5f", "0.0", "9" * 400 + "f", "9" * 400 + ".0", "0." + "0" * 400 + "1", "1.0_", "1._0",
+            str(2 ** 31) + "f", "1.7976931348623157" + "0" * 300 + ".0", "2" + "0" * 308 + ".0"]
+    out += ['""', '"\\q"', '"\\"', '"abc', '"\\u{41}"', '"\\x41"', '"a\nb"', '"\\r\\n\\t\\\\\\""', '"\x00"', '"' + "s" * 3000 + '"', "'a'",
+            '"\\', '"\\u{110000}"', '"\\u{d800}"', '"\\u{}"', '"\\u{"']
+    out += ["i" * 3000, "\u00e9t\u00e9", "a\u0301", "x-y", "x$", "$", "@", "`", "\\", "?", "~", ";", "\x00", "\ufeff", "\u200b"]
+    return out
+
+
+LEX_CTX = ["v = {L}", "print {L}", "v = -{L}", "v = !{L}", "v = {L} + 1", "v = 1 + {L}", "v = 1 << {L}", "v = {L} >> 1", "v = 1 / {L}", "v = 1 % {L}",
+           "v = {L} * {L}", "v = {L} == {L}", "v = l[{L}]", "l[{L}] = 1", "v = s[{L}]", "v: int = {L}", "v: bigint = {L}", "v: byte = {L}", "v: float = {L}",
+           "v: str = {L}", "const v = {L}", "v = [{L}, {L}]", "v = map[int, int]{{{L}: {L}}}", "from 0 to {L} {{\n\tbreak\n}}", "from {L} through 0 {{\n}}",
+           "from 0 to 1 step {L} {{\n}}", "v = f({L})", "v = get {L}", "v = ({L}) or 1", "v = typeof {L}", "v = {L}.to_str()", "{L} = 1", "v = {L}{L}",
+           "assert {L}", "if {L} {{\n}}", "v = {L} is {L}", "import {L}", "v = {L}(1)", "type T {L}"]
+LEX_PRELUDE = "l: [int...] = [1, 2]\ns = \"abc\"\nf = fn(p: int) -> int {\n\treturn p\n}\n"
+
+
 def mutate(src, toks, idx, op, tok):
     s, e = toks[idx]
     if op == "delete":
@@ -148,7 +172,9 @@ class C16(Check):
             "(alternative, repetition count 0/1/2, optional present), for the roots declaration, value (4 embeddings), type (2), class, "
             "import, function, reassignment, number_loop, if_statement, list, map, each in 6 host contexts x preludes that declare the "
             "identifier `a` with different types; (b) every single-token mutation (delete, duplicate, swap with next, replace by / insert each "
-            "token of a fixed alphabet) at every token position of corpus files; (c) nesting towers of 13 nestable constructs up to 4 kB.  "
+            "token of a fixed alphabet) at every token position of corpus files; (c) nesting towers of 13 nestable constructs up to 4 kB; "
+            "(d) lexical boundaries: ~150 spellings at the limits of every literal rule (decimal / hexadecimal / B / binary / float / string / identifier; "
+            "widths 8, 32, 64, 128 bits and beyond, malformed separators, escapes, stray characters) x 39 positions that treat a literal specially.  "
             "Non-trivial = the input is not accepted as a valid program (diagnostics path) or exercises a host context.")
     assumptions = ["`mscript compile <file> --quick` with a 10 s limit per input", "inputs < 4 kB", "arbitrary byte soup is not covered"]
     chunksize = 32
@@ -189,7 +215,9 @@ class C16(Check):
                         yield ("m", rel, i, "replace", t)
                         yield ("m", rel, i, "insert", t)
 
+        lits = lexical_literals()
         ls = [("L0-nesting-towers", [[c] for c in towers()]),
+              ("L0b-lexical-boundaries", [("x", c, i) for i in range(len(lits)) for c in range(len(LEX_CTX))]),
               ("L1-grammar-k<=2-all-hosts", gram(2, HOSTS, pre, list(ROOTS))),
               (f"L2-grammar-k<={k}-module-host", gram(k, ["module", "fn"], pre_q[:2] if tier == "quick" else pre, list(ROOTS)))]
         if tier == "quick":
@@ -207,6 +235,8 @@ class C16(Check):
             return {"root": case[1], "fragment": case[2], "host": case[3], "prelude": case[4]}
         if case[0] == "t":
             return {"tower": case[1], "depth": case[2]}
+        if case[0] == "x":
+            return {"context": LEX_CTX[case[1]], "literal": lexical_literals()[case[2]][:80]}
         return {"file": case[1], "token": case[2], "op": case[3], "with": case[4]}
 
     def source(self, case):
@@ -216,6 +246,8 @@ class C16(Check):
             return PRELUDES[p] + host_wrap(host, stmt)
         if case[0] == "t":
             return tower(case[1], case[2])
+        if case[0] == "x":
+            return LEX_PRELUDE + LEX_CTX[case[1]].replace("{L}", lexical_literals()[case[2]]).replace("{{", "{").replace("}}", "}") + "\n"
         _, rel, i, op, tok = case
         src = open(os.path.join(build.REPO, rel), encoding="utf-8").read()
         toks = pestgen.source_tokens(src)
@@ -243,6 +275,8 @@ class C16(Check):
             sig = {"kind": res.cls, "where": pm}
             if case[0] == "t":
                 sig["tower"] = case[1]
+            if case[0] == "x" and res.cls != "panic":
+                sig["lexical"] = LEX_CTX[case[1]]
             viol.append({"sig": sig, "what": f"compiler ended with {res.cls} (exit {res.exit}): {pm}",
                          "detail": {"files": {"x.ms": src}, "res": res.brief(), "case": repr(case)[:300]}})
             outcome = res.cls
@@ -251,7 +285,7 @@ class C16(Check):
 
     def finish(self, stats, tier):
         errs = []
-        for t in ["g", "t", "m", "accepted", "diagnostic"]:
+        for t in ["g", "t", "m", "x", "accepted", "diagnostic"]:
             if not stats["tags"].get(t):
                 errs.append(f"vacuity: no case with tag {t}")
         return errs
